@@ -11,6 +11,7 @@ from __future__ import annotations
 
 import random
 import sys
+import types
 from contextlib import AsyncExitStack
 from typing import Any
 
@@ -56,6 +57,18 @@ class Res:
 
 class Res2:
     pass
+
+
+@types.coroutine
+def _gen_coro(coro: Any):  # type: ignore[no-untyped-def]
+    """A generator-based coroutine (what @types.coroutine / old-style libraries hand out):
+    awaitable, although its type is the plain generator type."""
+    return (yield from coro)
+
+
+def _plain_gen():  # type: ignore[no-untyped-def]
+    """A plain generator object: NOT awaitable, although of the very same type."""
+    yield None
 
 
 class Aw:
@@ -162,7 +175,12 @@ class H:
         else:
             ctx = _mk(b.get("falsy"))
         self.know(ctx, cid)
-        sim.log("ctx_new", ctx=cid, parent=self.cid(ctx.parent), exp=exp, closed=ctx.closed)
+        if b.get("via") and b.get("untouched"):
+            # nothing at all is asked of the new context before it is entered elsewhere: its
+            # parent was decided when it was created, not when somebody first looks
+            sim.log("ctx_new", ctx=cid, parent=exp, exp=exp, closed=False, untouched=True)
+        else:
+            sim.log("ctx_new", ctx=cid, parent=self.cid(ctx.parent), exp=exp, closed=ctx.closed)
         if b.get("pre_ops"):
             await self.ops(b["pre_ops"], cid)
         if b.get("via"):
@@ -295,6 +313,8 @@ class H:
                 await self.foreign_exit(a[1], exp)
             elif op == "race":
                 self.race_prep(a[1], exp)
+            elif op == "tfcrash":
+                await self.tfcrash(a[1], exp)
             elif op == "raise":
                 e = self.tag.make(a[1])
                 sim.log("raise", where="act", ctx=exp, exc=describe(e))
@@ -345,6 +365,35 @@ class H:
                 sim.log("body_end", ctx=fid, how="return", exc=None, closed=c.closed)
 
         await owner.start_service_task(body, name, teardown_action=spec.get("action", "cancel"))
+
+    async def tfcrash(self, spec: dict, exp: str | None) -> None:
+        """A task of a task factory crashes; the factory's exception handler is called in
+        that task once the task's own context has been left - so what is current there is
+        again what the task started out with: the context it was spawned from."""
+        sim = self.sim
+        if exp is None:
+            return
+        h = self
+        done = anyio.Event()
+
+        def handler(exc: Exception) -> bool:
+            h.at(exp, "task_exception_handler")
+            done.set()
+            return True
+
+        factory = await current_context().start_background_task_factory(exception_handler=handler)
+
+        async def crashing() -> None:
+            c = current_context()
+            h.know(c, spec["cid"])
+            h.at(spec["cid"], "factory_task")
+            await sim.pause(*spec.get("gap", (0, 0.0)))
+            e = h.tag.make("SimError")
+            sim.fault("task_crash")
+            raise e
+
+        factory.start_task_soon(crashing, spec["cid"] + "_task")
+        await done.wait()
 
     def race_prep(self, spec: dict, cid: str | None) -> None:
         """Registers a slow async factory on the (open) current context and a teardown
@@ -547,6 +596,10 @@ class H:
             tg.start_soon(other, name="w:mid_child")
             try:
                 await in_td.wait()
+                # meanwhile the parent sees a number of short-lived children come and go
+                for _ in range(spec.get("churn", 0)):
+                    async with Context():
+                        pass
                 await sim.pause(*spec.get("gap", (0, 0.0)))
             except BaseException as e:
                 # the run is being cancelled: no experiment; close everything in order
@@ -813,8 +866,21 @@ class H:
 
         elif kind == "sync":
 
-            def f(*args: Any) -> None:  # type: ignore[misc]
-                self._sbody(spec, cid, args)
+            if spec.get("retgen"):
+                # returns some non-awaitable leftover (a plain generator object)
+                def f(*args: Any) -> Any:  # type: ignore[misc]
+                    self._sbody(spec, cid, args)
+                    return _plain_gen()
+
+            else:
+
+                def f(*args: Any) -> None:  # type: ignore[misc]
+                    self._sbody(spec, cid, args)
+
+        elif kind == "gen_coro":
+
+            def f(*args: Any) -> Any:  # type: ignore[misc]
+                return _gen_coro(self._abody(spec, cid, args))
 
         elif kind == "sync_aw":
 
@@ -1462,6 +1528,8 @@ class G:
         self.nctx = 0
         self.ntask = 0
         self.big = tier == "thorough"
+        # swarm knob: this plan mixes generator-based awaitables and plain generators
+        self.genmix = rng.random() < 0.1
 
     def exc_class(self, base_ok: bool = True) -> str:
         w = {"SimError": 5, "SimLookup": 2, "group": 1}
@@ -1490,8 +1558,10 @@ class G:
             if route == "tdf" and rng.random() < 0.5:
                 spec["shared"] = True
         else:
-            kind = pick(rng, {"sync": 3, "async": 4, "sync_aw": 1.2, "aw_obj": 0.5})
+            kind = pick(rng, {"sync": 3, "async": 4, "sync_aw": 1.2, "aw_obj": 0.5, "gen_coro": 3.0 if self.genmix else 0.3})
             spec["pexc"] = route in ("ctx", "mod") and rng.random() < 0.45
+            if kind == "sync" and rng.random() < (0.5 if self.genmix else 0.04):
+                spec["retgen"] = True
         spec["kind"] = kind
         if route == "res" and rng.random() < 0.4:
             spec["multi"] = True
@@ -1628,13 +1698,26 @@ def gen(rng: random.Random, tier: str, prop: str) -> dict:
                 outer["body"].insert(0, ["reg", g.cb()])
             root = outer
         plan["root"] = root
+        bulk = prop == "C01" and rng.random() < 0.06
+        if bulk:
+            # scale knob: one context carries dozens of callbacks
+            blocks = list(walk_blocks(root))
+            tgt = rng.choice(blocks)
+            regs = []
+            for _ in range(rng.randint(28, 70)):
+                g.ncb += 1
+                regs.append(["reg", {"id": f"c{g.ncb}", "route": rng.choice(("ctx", "ctx", "mod")), "kind": rng.choice(("sync", "sync", "async")), "pexc": rng.random() < 0.3, "body": []}])
+            pos = rng.randint(0, len(tgt["body"]))
+            if tgt["body"] and tgt["body"][-1][0] == "reg" and tgt["body"][-1][1].get("inner_ctx"):
+                pos = min(pos, len(tgt["body"]) - 1)
+            tgt["body"][pos:pos] = regs
         r = rng.random()
         if r < 0.08 and root["end"]["how"] == "return":
             plan["ambient"] = "except"
         elif r < 0.14:
             plan["ambient"] = "exitstack"
             root["end"] = {"how": "raise", "exc": g.exc_class()}
-        if rng.random() < 0.25:
+        if rng.random() < (0.6 if bulk else 0.25):
             plan["cancel"] = {"frac": round(rng.random(), 4)}
     if rng.random() < 0.3:
         plan["probe_every"] = True
@@ -1661,6 +1744,9 @@ def gen_c12(g: G) -> dict:
             elif r < 0.08 and depth >= 1:
                 # rejected re-entry attempts (twice) of the context that is current here
                 out.append(["ops", ["enter", "enter"], None])
+            elif r < 0.12 and depth >= 1 and g.nctx < 10:
+                g.nctx += 1
+                out.append(["tfcrash", {"cid": f"x{g.nctx}", "gap": [rng.choice((0, 1)), rng.choice((0.0, 0.25))]}])
             elif r < 0.3:
                 out.append(rpause(rng))
             elif r < 0.6 and depth < 4 and g.nctx < 10:
@@ -1687,6 +1773,8 @@ def gen_c12(g: G) -> dict:
                 if rng.random() < 0.2:
                     g.nctx += 1
                     b["via"] = f"x{g.nctx}"
+                    if rng.random() < 0.5:
+                        b["untouched"] = True
                 if rng.random() < 0.25 and g.ntask < 8:
                     g.ntask += 1
                     bgbody: list = [rpause(rng, 0.1), rpause(rng, 0.1), rpause(rng, 0.1)]
@@ -1808,6 +1896,7 @@ def gen_c13(g: G) -> dict:
                                     "how": rng.choice(("clean", "clean", "exception", "base_exception", "mid_teardown", "mid_teardown", "orphan", "explicit_foreign")),
                                     "falsy_parent": rng.random() < 0.15,
                                     "gap": [rng.choice((0, 1, 2)), rng.choice((0.0, 0.0, 0.5))],
+                                    "churn": rng.choice((0, 0, 0, 2, 40, 64, 70, 130)),
                                 },
                             ]
                         ],
